@@ -37,3 +37,578 @@ theorem applyAll_voteOk (s : RState) (rs : List WalEntry) (v : Nat × Nat) (h : 
     exact ih _ (applyEntry_voteOk s r v h)
 
 end Neumann.RaftWal
+
+/-! Part 2: the in-memory log and the recovered map stay equal (persist-and-act in lock step). -/
+namespace Neumann.RaftWal
+
+def entKV (e : LogEntry) : Nat × List Nat := (e.index, encEntry e)
+
+/-- entries are numbered `b+1, b+2, …` -/
+def WFfrom (b : Nat) : List LogEntry → Prop
+  | [] => True
+  | e :: r => e.index = b + 1 ∧ WFfrom (b + 1) r
+
+def WF (log : List LogEntry) : Prop := WFfrom 0 log
+
+def Sync (n : Node) (s : RState) : Prop :=
+  n.term = s.term ∧ n.votedFor = s.votedFor ∧ s.logMap = n.log.map entKV
+
+def Shape (s : RState) : Prop := ∃ log, WF log ∧ s.logMap = log.map entKV
+
+def Sat (s : RState) (g : Ghost) : Prop :=
+  g.actedTerm ≤ s.term ∧ (∀ v ∈ g.votes, VoteOk s v) ∧ (∀ e ∈ g.acked, entKV e ∈ s.logMap)
+
+def P (s : RState) (g : Ghost) : Prop := Sat s g ∧ Shape s
+
+def microS (s : RState) : Micro → RState
+  | .wal r => applyEntry s r
+  | _ => s
+
+def microAllS (s : RState) (ms : List Micro) : RState := ms.foldl microS s
+
+/-- `P` holds before the first micro step and after every one of them -/
+def Chain (s : RState) (g : Ghost) : List Micro → Prop
+  | [] => P s g
+  | μ :: ms => P s g ∧ Chain (microS s μ) (microG g μ) ms
+
+theorem chain_head {s g ms} (h : Chain s g ms) : P s g := by
+  cases ms with
+  | nil => exact h
+  | cons μ ms => exact h.1
+
+theorem chain_append {s g} (a b : List Micro) :
+    Chain s g (a ++ b) ↔ Chain s g a ∧ Chain (microAllS s a) (microAllG g a) b := by
+  induction a generalizing s g with
+  | nil =>
+    simp only [List.nil_append, Chain, microAllS, microAllG, List.foldl_nil]
+    exact ⟨fun h => ⟨chain_head h, h⟩, fun h => h.2⟩
+  | cons μ a ih =>
+    simp only [List.cons_append, Chain, microAllS, microAllG, List.foldl_cons]
+    rw [ih]
+    simp only [microAllS, microAllG]
+    exact ⟨fun h => ⟨⟨h.1, h.2.1⟩, h.2.2⟩, fun h => ⟨h.1.1, h.1.2, h.2⟩⟩
+
+theorem chain_take {s g ms} (h : Chain s g ms) (k : Nat) :
+    P (microAllS s (ms.take k)) (microAllG g (ms.take k)) := by
+  induction ms generalizing s g k with
+  | nil => simpa [microAllS, microAllG, Chain] using h
+  | cons μ ms ih =>
+    cases k with
+    | zero => simpa [microAllS, microAllG] using h.1
+    | succ k =>
+      simp only [List.take_succ_cons, microAllS, microAllG, List.foldl_cons]
+      exact ih h.2 k
+
+theorem chain_end {s g ms} (h : Chain s g ms) : P (microAllS s ms) (microAllG g ms) := by
+  have := chain_take h ms.length
+  simpa using this
+
+theorem microAllS_recs (s : RState) (ms : List Micro) : microAllS s ms = applyAll s (recs ms) := by
+  induction ms generalizing s with
+  | nil => rfl
+  | cons μ ms ih =>
+    cases μ <;> simp [microAllS, recs, applyAll, microS] <;>
+      simpa [microAllS, recs, applyAll] using ih _
+
+theorem fromEntries_append (d rs : List WalEntry) : fromEntries (d ++ rs) = applyAll (fromEntries d) rs := by
+  simp [fromEntries, applyAll, List.foldl_append]
+
+/-! #### facts about a well-numbered log -/
+
+theorem wf_append {b : Nat} {log : List LogEntry} {e : LogEntry} (h : WFfrom b log)
+    (he : e.index = b + log.length + 1) : WFfrom b (log ++ [e]) := by
+  induction log generalizing b with
+  | nil => simp [WFfrom] at *; omega
+  | cons x r ih =>
+    simp only [List.cons_append, WFfrom] at *
+    refine ⟨h.1, ih h.2 ?_⟩
+    simp only [List.length_cons] at he; omega
+
+theorem wf_take {b : Nat} {log : List LogEntry} (h : WFfrom b log) (k : Nat) : WFfrom b (log.take k) := by
+  induction log generalizing b k with
+  | nil => simp [WFfrom]
+  | cons x r ih =>
+    cases k with
+    | zero => simp [WFfrom]
+    | succ k => simp only [List.take_succ_cons, WFfrom] at *; exact ⟨h.1, ih h.2 k⟩
+
+theorem wf_index {b : Nat} {log : List LogEntry} (h : WFfrom b log) {e : LogEntry} (he : e ∈ log) :
+    b < e.index ∧ e.index ≤ b + log.length := by
+  induction log generalizing b with
+  | nil => simp at he
+  | cons x r ih =>
+    simp only [WFfrom] at h
+    rcases List.mem_cons.mp he with rfl | hr
+    · simp only [List.length_cons]; omega
+    · have := ih h.2 hr
+      simp only [List.length_cons]; omega
+
+/-- inserting the next index appends -/
+theorem mapInsert_append {b : Nat} {log : List LogEntry} (h : WFfrom b log) (e : LogEntry)
+    (he : e.index = b + log.length + 1) :
+    mapInsert e.index (encEntry e) (log.map entKV) = (log ++ [e]).map entKV := by
+  induction log generalizing b with
+  | nil => simp [mapInsert, entKV]
+  | cons x r ih =>
+    simp only [WFfrom] at h
+    simp only [List.length_cons] at he
+    have hx : ¬ e.index < x.index := by omega
+    have hx2 : ¬ e.index = x.index := by omega
+    show mapInsert e.index (encEntry e) ((x.index, encEntry x) :: r.map entKV)
+        = (x.index, encEntry x) :: (r ++ [e]).map entKV
+    simp only [mapInsert, hx, hx2, if_false]
+    rw [ih h.2 (by omega)]
+
+/-- removing keys `≥ f` cuts the log after position `f - 1` -/
+theorem mapRemoveFrom_take {b : Nat} {log : List LogEntry} (h : WFfrom b log) (f : Nat) :
+    mapRemoveFrom f (log.map entKV) = (log.take (f - 1 - b)).map entKV := by
+  induction log generalizing b with
+  | nil => simp [mapRemoveFrom]
+  | cons x r ih =>
+    simp only [WFfrom] at h
+    have ih' := ih h.2
+    simp only [mapRemoveFrom] at ih' ⊢
+    show List.filter (fun kv => decide (kv.1 < f)) ((x.index, encEntry x) :: r.map entKV) = _
+    by_cases hlt : x.index < f
+    · have : f - 1 - b = (f - 1 - (b + 1)) + 1 := by omega
+      rw [this, List.take_succ_cons]
+      simp only [List.filter_cons, hlt, decide_true, if_true, List.map_cons]
+      rw [ih']; rfl
+    · have h0 : f - 1 - b = 0 := by omega
+      have h1 : f - 1 - (b + 1) = 0 := by omega
+      rw [h0]
+      simp only [List.filter_cons, hlt, decide_false, List.take_zero, List.map_nil]
+      rw [ih', h1]; simp
+
+theorem decEntry_encEntry (e : LogEntry) : decEntry (encEntry e) = some e := by
+  cases e; rfl
+
+theorem filterMap_dec (log : List LogEntry) :
+    ((log.map entKV).map (·.2)).filterMap decEntry = log := by
+  induction log with
+  | nil => rfl
+  | cons x r ih =>
+    simp only [List.map_cons, List.filterMap_cons, entKV, decEntry_encEntry]
+    congr 1
+
+theorem restart_sync (id : Nat) (s : RState) (h : Shape s) :
+    Sync (restart id s) s ∧ WF (restart id s).log := by
+  obtain ⟨log, hwf, hm⟩ := h
+  have hl : (restart id s).log = log := by
+    simp only [restart, recoveredLog, hm]
+    exact filterMap_dec log
+  refine ⟨⟨rfl, rfl, ?_⟩, ?_⟩
+  · rw [hl]; exact hm
+  · rw [hl]; exact hwf
+
+end Neumann.RaftWal
+
+/-! Part 3: every micro step of every handler keeps the obligations satisfied. -/
+namespace Neumann.RaftWal
+
+theorem shape_of_log {s : RState} {log : List LogEntry} (hwf : WF log) (hm : s.logMap = log.map entKV) :
+    Shape s := ⟨log, hwf, hm⟩
+
+/-- facts about a `TermAndVote` record with a higher term -/
+theorem apply_tv_higher (s : RState) (t : Nat) (v : Option Nat) (h : t > s.term) :
+    applyEntry s (.termAndVote t v) = { s with term := t, votedFor := v } := by
+  simp [applyEntry, h]
+
+/-- a vote record in the current term while no vote is recorded -/
+theorem apply_tv_same_none (s : RState) (v : Option Nat) (h : s.votedFor = none) :
+    applyEntry s (.termAndVote s.term v) = { s with votedFor := v } := by
+  simp [applyEntry, h]
+
+/-- re-granting the recorded vote changes nothing -/
+theorem apply_tv_same_some (s : RState) (c : Nat) (h : s.votedFor = some c) :
+    applyEntry s (.termAndVote s.term (some c)) = s := by
+  simp [applyEntry, h]
+
+/-- records that do not touch the log map keep `P` -/
+theorem P_nonlog (s : RState) (g : Ghost) (r : WalEntry) (hP : P s g)
+    (hl : (applyEntry s r).logMap = s.logMap) : P (applyEntry s r) g := by
+  obtain ⟨⟨h1, h2, h3⟩, log, hwf, hm⟩ := hP
+  refine ⟨⟨?_, ?_, ?_⟩, log, hwf, by rw [hl]; exact hm⟩
+  · have := applyEntry_term_mono s r; omega
+  · intro v hv; exact applyEntry_voteOk s r v (h2 v hv)
+  · intro e he; rw [hl]; exact h3 e he
+
+theorem tv_logMap (s : RState) (t : Nat) (v : Option Nat) :
+    (applyEntry s (.termAndVote t v)).logMap = s.logMap := by
+  simp only [applyEntry]; (repeat' split) <;> rfl
+
+theorem P_ackTerm (s : RState) (g : Ghost) (t : Nat) (hP : P s g) (ht : t ≤ s.term) :
+    P s (microG g (.ackTerm t)) := by
+  obtain ⟨⟨h1, h2, h3⟩, hs⟩ := hP
+  refine ⟨⟨?_, h2, h3⟩, hs⟩
+  simp only [microG]; omega
+
+theorem P_ackVote (s : RState) (g : Ghost) (t c : Nat) (hP : P s g) (hv : VoteOk s (t, c)) :
+    P s (microG g (.ackVote t c)) := by
+  obtain ⟨⟨h1, h2, h3⟩, hs⟩ := hP
+  refine ⟨⟨h1, ?_, h3⟩, hs⟩
+  intro v hv'
+  simp only [microG, List.mem_cons] at hv'
+  rcases hv' with rfl | h
+  · exact hv
+  · exact h2 v h
+
+theorem P_ackLog (s : RState) (g : Ghost) (es : List LogEntry) (hP : P s g)
+    (he : ∀ e ∈ es, entKV e ∈ s.logMap) : P s (microG g (.ackLog es)) := by
+  obtain ⟨⟨h1, h2, h3⟩, hs⟩ := hP
+  refine ⟨⟨h1, h2, ?_⟩, hs⟩
+  intro e hm
+  simp only [microG, List.mem_append] at hm
+  rcases hm with h | h
+  · exact he e h
+  · exact h3 e h
+
+/-- the loop invariant of `append_leader_entries` -/
+def LoopInv (log : List LogEntry) (s : RState) (g : Ghost) : Prop :=
+  WF log ∧ s.logMap = log.map entKV ∧ Sat s g
+
+theorem loopInv_P {log s g} (h : LoopInv log s g) : P s g := ⟨h.2.2, log, h.1, h.2.1⟩
+
+/-- appending entry `len+1` -/
+theorem push_step {log : List LogEntry} {s : RState} {g : Ghost} (h : LoopInv log s g) (e : LogEntry)
+    (he : e.index = log.length + 1) :
+    LoopInv (log ++ [e]) (applyEntry s (.logEntryFull e.index e.term (encEntry e))) g := by
+  obtain ⟨hwf, hm, h1, h2, h3⟩ := h
+  have hins : mapInsert e.index (encEntry e) s.logMap = (log ++ [e]).map entKV := by
+    rw [hm]; exact mapInsert_append hwf e (by omega)
+  refine ⟨wf_append hwf (by omega), ?_, ?_, ?_, ?_⟩
+  · simp only [applyEntry]; exact hins
+  · simpa [applyEntry] using h1
+  · intro v hv; exact applyEntry_voteOk s _ v (h2 v hv)
+  · intro a ha
+    have := h3 a ha
+    simp only [applyEntry, hins]
+    rw [hm] at this
+    simp only [List.map_append, List.mem_append]
+    exact Or.inl this
+
+/-- the conflict truncation record -/
+theorem truncate_step {log : List LogEntry} {s : RState} {g : Ghost} (h : LoopInv log s g) (f : Nat) :
+    LoopInv (log.take (f - 1)) (applyEntry s (.logTruncate f)) (microG g (.wal (.logTruncate f))) := by
+  obtain ⟨hwf, hm, h1, h2, h3⟩ := h
+  have hrm : mapRemoveFrom f s.logMap = (log.take (f - 1)).map entKV := by
+    rw [hm]; have := mapRemoveFrom_take hwf f; simpa using this
+  refine ⟨wf_take hwf _, ?_, ?_, ?_, ?_⟩
+  · simp only [applyEntry]; exact hrm
+  · simpa [applyEntry, microG] using h1
+  · intro v hv; exact applyEntry_voteOk s _ v (h2 v (by simpa [microG] using hv))
+  · intro a ha
+    simp only [microG, List.mem_filter, decide_eq_true_eq] at ha
+    have hin := h3 a ha.1
+    simp only [applyEntry, mapRemoveFrom, List.mem_filter, decide_eq_true_eq]
+    exact ⟨hin, by simpa [entKV] using ha.2⟩
+
+theorem microG_full (g : Ghost) (i t : Nat) (d : List Nat) : microG g (.wal (.logEntryFull i t d)) = g := rfl
+theorem microG_tv (g : Ghost) (t : Nat) (v : Option Nat) : microG g (.wal (.termAndVote t v)) = g := rfl
+
+/-- result of one loop iteration: a chain of satisfied states and the invariant at the end -/
+structure LoopOut (s : RState) (g : Ghost) (rs : List WalEntry) (log' : List LogEntry) : Prop where
+  chain : Chain s g (rs.map Micro.wal)
+  inv : LoopInv log' (microAllS s (rs.map Micro.wal)) (microAllG g (rs.map Micro.wal))
+  term : (microAllS s (rs.map Micro.wal)).term = s.term
+  vote : (microAllS s (rs.map Micro.wal)).votedFor = s.votedFor
+
+theorem appendOne_ok {log : List LogEntry} {s : RState} {g : Ghost} (h : LoopInv log s g) (e : LogEntry)
+    (hle : e.index ≤ log.length + 1) :
+    LoopOut s g (appendOne log e).1 (appendOne log e).2 ∧ e.index ≤ (appendOne log e).2.length := by
+  unfold appendOne
+  by_cases hgt : e.index > log.length
+  · simp only [hgt, if_true]
+    have hp := push_step h e (by omega)
+    refine ⟨⟨?_, ?_, ?_, ?_⟩, by simp; omega⟩
+    · simp only [List.map_cons, List.map_nil, Chain, microS, microG_full]
+      exact ⟨loopInv_P h, loopInv_P hp⟩
+    · simpa [microAllS, microAllG, microS, microG_full] using hp
+    · simp [microAllS, microS, applyEntry]
+    · simp [microAllS, microS, applyEntry]
+  · simp only [hgt, if_false]
+    have trivialOut : LoopOut s g [] log :=
+      ⟨by simpa [Chain] using loopInv_P h, by simpa [microAllS, microAllG] using h,
+       by simp [microAllS], by simp [microAllS]⟩
+    by_cases h0 : e.index = 0
+    · simp only [h0, if_true]; exact ⟨trivialOut, by omega⟩
+    · simp only [h0, if_false]
+      cases hget : log[e.index - 1]? with
+      | none => dsimp only; exact ⟨trivialOut, by omega⟩
+      | some old =>
+        dsimp only
+        by_cases hc : old.term ≠ e.term
+        · rw [if_pos hc]
+          have ht := truncate_step h e.index
+          have hlen : (log.take (e.index - 1)).length = e.index - 1 := by
+            simp only [List.length_take]; omega
+          have hp := push_step ht e (by omega)
+          refine ⟨⟨?_, ?_, ?_, ?_⟩, by simp [hlen]; omega⟩
+          · simp only [List.map_cons, List.map_nil, Chain, microS, microG_full]
+            exact ⟨loopInv_P h, loopInv_P ht, loopInv_P hp⟩
+          · simpa [microAllS, microAllG, microS, microG_full] using hp
+          · simp [microAllS, microS, applyEntry]
+          · simp [microAllS, microS, applyEntry]
+        · rw [if_neg hc]; exact ⟨trivialOut, by dsimp only; omega⟩
+
+theorem appendLoop_ok {log : List LogEntry} {s : RState} {g : Ghost} (h : LoopInv log s g)
+    (es : List LogEntry) (b : Nat) (hes : WFfrom b es) (hb : b ≤ log.length) :
+    LoopOut s g (appendLoop log es).1 (appendLoop log es).2 := by
+  induction es generalizing log s g b with
+  | nil =>
+    exact ⟨by simpa [appendLoop, Chain] using loopInv_P h, by simpa [appendLoop, microAllS, microAllG] using h,
+           by simp [appendLoop, microAllS], by simp [appendLoop, microAllS]⟩
+  | cons e es ih =>
+    simp only [WFfrom] at hes
+    obtain ⟨o1, hlen⟩ := appendOne_ok h e (by omega)
+    have o2 := ih o1.inv (b + 1) hes.2 (by omega)
+    have key : appendLoop log (e :: es) = ((appendOne log e).1 ++ (appendLoop (appendOne log e).2 es).1,
+        (appendLoop (appendOne log e).2 es).2) := rfl
+    rw [key]
+    refine ⟨?_, ?_, ?_, ?_⟩
+    · rw [List.map_append]; exact (chain_append _ _).mpr ⟨o1.chain, o2.chain⟩
+    · simpa [microAllS, microAllG, List.foldl_append] using o2.inv
+    · have := o2.term; rw [o1.term] at this
+      simpa [microAllS, List.foldl_append] using this
+    · have := o2.vote; rw [o1.vote] at this
+      simpa [microAllS, List.foldl_append] using this
+
+theorem mkEntries_wf (b : Nat) (ents : List (Nat × Nat)) : WFfrom b (mkEntries b ents) := by
+  induction ents generalizing b with
+  | nil => simp [mkEntries, WFfrom]
+  | cons x r ih => obtain ⟨t, c⟩ := x; simp only [mkEntries, WFfrom]; exact ⟨trivial, ih (b + 1)⟩
+
+theorem logOk_bound {log : List LogEntry} {pi pt : Nat} (h : logOk log pi pt = true) : pi ≤ log.length := by
+  unfold logOk at h
+  by_cases h0 : pi = 0
+  · omega
+  · simp only [h0, if_false] at h
+    by_cases h1 : pi ≤ log.length
+    · exact h1
+    · simp [h1] at h
+
+end Neumann.RaftWal
+
+/-! Part 4: every handler (except snapshot install) keeps memory and log in step and the
+    obligations satisfied after each of its micro steps. -/
+namespace Neumann.RaftWal
+
+def NoSnap : Event → Prop
+  | .installSnapshot _ _ _ => False
+  | _ => True
+
+structure StepOk (s : RState) (g : Ghost) (o : StepOut) : Prop where
+  chain : Chain s g o.micros
+  sync : Sync o.node (microAllS s o.micros)
+  wf : WF o.node.log
+
+theorem P_tv (s : RState) (g : Ghost) (t : Nat) (v : Option Nat) (hP : P s g) :
+    P (applyEntry s (.termAndVote t v)) g := P_nonlog s g _ hP (tv_logMap s t v)
+
+theorem P_of_sync {n : Node} {s : RState} {g : Ghost} (hS : Sync n s) (hwf : WF n.log) (hsat : Sat s g) :
+    P s g := ⟨hsat, n.log, hwf, hS.2.2⟩
+
+/-- the common "higher term seen" prefix -/
+theorem preHigher_ok (n : Node) (s : RState) (g : Ghost) (t : Nat) (r : Role)
+    (hS : Sync n s) (hwf : WF n.log) (hsat : Sat s g) :
+    Chain s g (preHigher n t r).1
+    ∧ microAllG g (preHigher n t r).1 = g
+    ∧ Sync (preHigher n t r).2 (microAllS s (preHigher n t r).1)
+    ∧ Sat (microAllS s (preHigher n t r).1) g
+    ∧ (preHigher n t r).2.log = n.log
+    ∧ (preHigher n t r).2.id = n.id := by
+  have hP := P_of_sync hS hwf hsat
+  unfold preHigher
+  split
+  · next h =>
+    have hgt : t > s.term := by rw [← hS.1]; exact h
+    have hP1 := P_tv s g t none hP
+    have hs1 := apply_tv_higher s t none hgt
+    refine ⟨⟨hP, hP1⟩, rfl, ?_, ?_, rfl, rfl⟩
+    · show Sync _ (applyEntry s (.termAndVote t none))
+      rw [hs1]; exact ⟨rfl, rfl, hS.2.2⟩
+    · exact hP1.1
+  · exact ⟨hP, rfl, hS, hsat, rfl, rfl⟩
+
+theorem chain_ackTerm_end {s : RState} {g : Ghost} {t : Nat} (hP : P s g) (ht : t ≤ s.term) :
+    Chain s g [.ackTerm t] := ⟨hP, by simpa [Chain, microS] using P_ackTerm s g t hP ht⟩
+
+theorem microAllS_ack_end (s : RState) (ms tail : List Micro) (h : recs tail = []) :
+    microAllS s (ms ++ tail) = microAllS s ms := by
+  have : microAllS s (ms ++ tail) = microAllS (microAllS s ms) tail := by
+    simp [microAllS, List.foldl_append]
+  rw [this, microAllS_recs (microAllS s ms) tail, h]; rfl
+
+theorem stepdown_ok (n : Node) (s : RState) (g : Ghost) (t : Nat)
+    (hS : Sync n s) (hwf : WF n.log) (hsat : Sat s g) (ht : t > n.term) :
+    StepOk s g { micros := [.wal (.termAndVote t none), .ackTerm t],
+                 node := { n with term := t, votedFor := none, role := .follower }, reply := .none } := by
+  have hP := P_of_sync hS hwf hsat
+  have hgt : t > s.term := by rw [← hS.1]; exact ht
+  have hP1 := P_tv s g t none hP
+  have hs1 := apply_tv_higher s t none hgt
+  refine ⟨⟨hP, ?_⟩, ?_, hwf⟩
+  · simp only [microS, microG_tv]
+    exact chain_ackTerm_end hP1 (by rw [hs1]; exact Nat.le_refl _)
+  · simp only [microAllS, List.foldl_cons, List.foldl_nil, microS, hs1]
+    exact ⟨rfl, rfl, hS.2.2⟩
+
+theorem noop_ok (n n' : Node) (s : RState) (g : Ghost) (rp : Reply)
+    (hS : Sync n s) (hwf : WF n.log) (hsat : Sat s g)
+    (h1 : n'.term = n.term) (h2 : n'.votedFor = n.votedFor) (h3 : n'.log = n.log) :
+    StepOk s g { micros := [], node := n', reply := rp } := by
+  refine ⟨by simpa [Chain] using P_of_sync hS hwf hsat, ?_, by rw [h3]; exact hwf⟩
+  simp only [microAllS, List.foldl_nil]
+  exact ⟨by rw [h1]; exact hS.1, by rw [h2]; exact hS.2.1, by rw [h3]; exact hS.2.2⟩
+
+theorem step_ok (n : Node) (s : RState) (g : Ghost) (e : Event)
+    (hS : Sync n s) (hwf : WF n.log) (hsat : Sat s g) (he : NoSnap e) : StepOk s g (step n e) := by
+  have hP := P_of_sync hS hwf hsat
+  cases e with
+  | installSnapshot a b c => exact absurd he (by simp [NoSnap])
+  | startElection =>
+    simp only [step]
+    have hgt : n.term + 1 > s.term := by rw [← hS.1]; omega
+    have hs1 := apply_tv_higher s (n.term + 1) (some n.id) hgt
+    have hP1 := P_tv s g (n.term + 1) (some n.id) hP
+    refine ⟨⟨hP, ?_⟩, ?_, hwf⟩
+    · simp only [microS, microG_tv]
+      refine ⟨hP1, ?_⟩
+      have hP2 := P_ackTerm _ g (n.term + 1) hP1 (by rw [hs1]; exact Nat.le_refl _)
+      refine ⟨hP2, ?_⟩
+      simp only [microS, Chain]
+      exact P_ackVote _ _ _ _ hP2 (Or.inr ⟨by rw [hs1], by rw [hs1]⟩)
+    · simp only [microAllS, List.foldl_cons, List.foldl_nil, microS, hs1]
+      exact ⟨rfl, rfl, hS.2.2⟩
+  | voteResponse t =>
+    simp only [step]
+    split
+    · next h => exact stepdown_ok n s g t hS hwf hsat h.2
+    · exact noop_ok n n s g _ hS hwf hsat rfl rfl rfl
+  | preVoteResponse t b =>
+    simp only [step]
+    split
+    · next h => exact stepdown_ok n s g t hS hwf hsat h.2
+    · exact noop_ok n n s g _ hS hwf hsat rfl rfl rfl
+  | appendResponse t =>
+    simp only [step]
+    split
+    · next h => exact stepdown_ok n s g t hS hwf hsat h.2
+    · exact noop_ok n n s g _ hS hwf hsat rfl rfl rfl
+  | becomeLeader =>
+    simp only [step]
+    exact noop_ok n _ s g _ hS hwf hsat rfl rfl rfl
+  | propose cmd =>
+    simp only [step]
+    split
+    · have hL : LoopInv n.log s g := ⟨hwf, hS.2.2, hsat⟩
+      have hp := push_step hL ⟨n.log.length + 1, n.term, cmd⟩ rfl
+      have hP1 := loopInv_P hp
+      have hterm : (applyEntry s (.logEntryFull (n.log.length + 1) n.term
+          (encEntry ⟨n.log.length + 1, n.term, cmd⟩))).term = s.term := by simp [applyEntry]
+      have hvote : (applyEntry s (.logEntryFull (n.log.length + 1) n.term
+          (encEntry ⟨n.log.length + 1, n.term, cmd⟩))).votedFor = s.votedFor := by simp [applyEntry]
+      refine ⟨⟨hP, ?_⟩, ?_, hp.1⟩
+      · simp only [microS, microG_full]
+        refine ⟨hP1, ?_⟩
+        have hP2 := P_ackTerm _ g n.term hP1 (by rw [hterm, hS.1]; exact Nat.le_refl _)
+        refine ⟨hP2, ?_⟩
+        simp only [microS, Chain]
+        refine P_ackLog _ _ _ hP2 ?_
+        intro a ha
+        simp only [List.mem_singleton] at ha
+        rw [ha, hp.2.1]; simp
+      · simp only [microAllS, List.foldl_cons, List.foldl_nil, microS]
+        exact ⟨by rw [hterm]; exact hS.1, by rw [hvote]; exact hS.2.1, hp.2.1⟩
+    · exact noop_ok n n s g _ hS hwf hsat rfl rfl rfl
+  | requestVote t cand li lt =>
+    obtain ⟨hc1, hg1, hS1, hsat1, hlog1, _⟩ := preHigher_ok n s g t .follower hS hwf hsat
+    have hwf1 : WF (preHigher n t .follower).2.log := by rw [hlog1]; exact hwf
+    have hP1 := P_of_sync hS1 hwf1 hsat1
+    simp only [step]
+    generalize hn1 : (preHigher n t .follower).2 = n1 at *
+    generalize hm1 : (preHigher n t .follower).1 = m1 at *
+    have tailDeny : StepOk s g (StepOut.mk (m1 ++ [Micro.ackTerm n1.term]) n1 (Reply.vote n1.term false)) := by
+      refine ⟨(chain_append _ _).mpr ⟨hc1, ?_⟩, ?_, hwf1⟩
+      · rw [hg1]; exact chain_ackTerm_end hP1 (by rw [hS1.1]; exact Nat.le_refl _)
+      · rw [microAllS_ack_end _ _ _ (by rfl)]; exact hS1
+    split
+    · split
+      · next hterm hgrant =>
+        -- vote granted
+        generalize hs1 : microAllS s m1 = s1 at *
+        have hts : n1.term = s1.term := hS1.1
+        have hs2 : (applyEntry s1 (.termAndVote n1.term (some cand))).term = s1.term
+            ∧ (applyEntry s1 (.termAndVote n1.term (some cand))).votedFor = some cand
+            ∧ (applyEntry s1 (.termAndVote n1.term (some cand))).logMap = s1.logMap := by
+          rw [hts]
+          rcases hgrant.1 with hv | hv
+          · have : s1.votedFor = none := by rw [← hS1.2.1]; exact hv
+            rw [apply_tv_same_none s1 _ this]; exact ⟨rfl, rfl, rfl⟩
+          · have : s1.votedFor = some cand := by rw [← hS1.2.1]; exact hv
+            rw [apply_tv_same_some s1 _ this]; exact ⟨rfl, this, rfl⟩
+        have hP2 := P_tv s1 g n1.term (some cand) hP1
+        refine ⟨(chain_append _ _).mpr ⟨hc1, ?_⟩, ?_, hwf1⟩
+        · rw [hg1, hs1]
+          refine ⟨hP1, ?_⟩
+          simp only [microS, microG_tv]
+          refine ⟨hP2, ?_⟩
+          have hP3 := P_ackTerm _ g n1.term hP2 (by rw [hs2.1, hts]; exact Nat.le_refl _)
+          refine ⟨hP3, ?_⟩
+          simp only [microS, Chain]
+          exact P_ackVote _ _ _ _ hP3 (Or.inr ⟨by rw [hs2.1, hts], hs2.2.1⟩)
+        · have : microAllS s (m1 ++ [Micro.wal (.termAndVote n1.term (some cand)), .ackTerm n1.term, .ackVote n1.term cand])
+              = applyEntry s1 (.termAndVote n1.term (some cand)) := by
+            simp only [microAllS, List.foldl_append, List.foldl_cons, List.foldl_nil, microS] at hs1 ⊢
+            rw [hs1]
+          rw [this]
+          exact ⟨by rw [hs2.1]; exact hts, by rw [hs2.2.1], by rw [hs2.2.2]; exact hS1.2.2⟩
+      · exact tailDeny
+    · exact tailDeny
+  | appendEntries t leader prevIdx prevTerm ents =>
+    obtain ⟨hc1, hg1, hS1, hsat1, hlog1, _⟩ := preHigher_ok n s g t .follower hS hwf hsat
+    have hwf1 : WF (preHigher n t .follower).2.log := by rw [hlog1]; exact hwf
+    have hP1 := P_of_sync hS1 hwf1 hsat1
+    simp only [step]
+    generalize hn1 : (preHigher n t .follower).2 = n1 at *
+    generalize hm1 : (preHigher n t .follower).1 = m1 at *
+    split
+    · split
+      · next hterm hok =>
+        have hL : LoopInv n1.log (microAllS s m1) g := ⟨hwf1, hS1.2.2, hsat1⟩
+        have o := appendLoop_ok hL (mkEntries prevIdx ents) prevIdx (mkEntries_wf _ _) (logOk_bound hok)
+        generalize hr : appendLoop n1.log (mkEntries prevIdx ents) = r at *
+        obtain ⟨ochain, oinv, oterm, ovote⟩ := o
+        have e1 : microAllS s (m1 ++ r.1.map Micro.wal) = microAllS (microAllS s m1) (r.1.map Micro.wal) := by
+          simp [microAllS, List.foldl_append]
+        have e2 : microAllG g (m1 ++ r.1.map Micro.wal) = microAllG g (r.1.map Micro.wal) := by
+          have : microAllG g (m1 ++ r.1.map Micro.wal) = microAllG (microAllG g m1) (r.1.map Micro.wal) := by
+            simp [microAllG, List.foldl_append]
+          rw [this, hg1]
+        generalize hs2 : microAllS (microAllS s m1) (r.1.map Micro.wal) = s2 at *
+        generalize hg2 : microAllG g (r.1.map Micro.wal) = g2 at *
+        have hP2 := loopInv_P oinv
+        have hterm2 : n1.term = s2.term := by rw [oterm]; exact hS1.1
+        have hP3 := P_ackTerm _ _ n1.term hP2 (by rw [hterm2]; exact Nat.le_refl _)
+        have htail : Chain s2 g2 [.ackTerm n1.term,
+            .ackLog (r.2.take (min (prevIdx + ents.length) r.2.length))] := by
+          refine ⟨hP2, hP3, ?_⟩
+          simp only [microS, Chain]
+          refine P_ackLog _ _ _ hP3 ?_
+          intro a ha
+          rw [oinv.2.1]
+          exact List.mem_map_of_mem (List.mem_of_mem_take ha)
+        refine ⟨?_, ?_, oinv.1⟩
+        · refine (chain_append _ _).mpr ⟨(chain_append _ _).mpr ⟨hc1, ?_⟩, ?_⟩
+          · rw [hg1]; exact ochain
+          · rw [e1, e2]; exact htail
+        · rw [microAllS_ack_end _ _ _ (by rfl), e1]
+          exact ⟨hterm2, by rw [ovote]; exact hS1.2.1, oinv.2.1⟩
+      · refine ⟨(chain_append _ _).mpr ⟨hc1, ?_⟩, ?_, hwf1⟩
+        · rw [hg1]; exact chain_ackTerm_end hP1 (by rw [hS1.1]; exact Nat.le_refl _)
+        · rw [microAllS_ack_end _ _ _ (by rfl)]; exact hS1
+    · refine ⟨(chain_append _ _).mpr ⟨hc1, ?_⟩, ?_, hwf1⟩
+      · rw [hg1]; exact chain_ackTerm_end hP1 (by rw [hS1.1]; exact Nat.le_refl _)
+      · rw [microAllS_ack_end _ _ _ (by rfl)]; exact hS1
+
+end Neumann.RaftWal
